@@ -581,6 +581,8 @@ func (m *BatchMon) onStore(c *eng.Ctx, s batchState, life lifeState, ev *eng.Eve
 	case known && isErr:
 		r.failed = true
 		switch {
+		case chainRan && (life.last == "Exec" || life.last == "Fb") && !lastFail:
+			note(&r.resBad, "slot receives an error ("+errT.Pretty()+") although the item's exec phase is not known to have failed: a successful outcome would be discarded")
 		case wrapsCtxErr(c, errT) && (life.cut || s.cutInIter):
 			// cancelled before or between attempts
 		case chainRan && lastFail:
